@@ -380,6 +380,13 @@ def r4(ctx: Context) -> None:
     if base_to is None or base_from is None:
         raise AnalysisError("anchor-vanished: PynencError._to_json_dict/_from_json_dict")
     base_carries_args = "args" in ast.unparse(base_to.node) and "args" in ast.unparse(base_from.node)
+    # the arguments are carried AS THEY ARE (list(self.args) / self.args): converting them (str(), repr(), a comprehension over
+    # them) changes what the reader rebuilds - RetryError("throttled", 3) comes back as RetryError("throttled", "3")
+    for d_ in [n_ for n_ in ast.walk(base_to.node) if isinstance(n_, ast.Dict)]:
+        for k_, v_ in zip(d_.keys, d_.values):
+            if isinstance(k_, ast.Constant) and k_.value == "args":
+                plain = (isinstance(v_, ast.Attribute) and v_.attr == "args") or (isinstance(v_, ast.Call) and isinstance(v_.func, ast.Name) and v_.func.id in ("list", "tuple") and len(v_.args) == 1 and isinstance(v_.args[0], ast.Attribute) and v_.args[0].attr == "args")
+                ctx.add("R4", "pynenc-error::PynencError::args-stored-unchanged", plain, base_to.loc(v_), "" if plain else f"'args' is stored as `{ast.unparse(v_)[:60]}`, not as the arguments themselves: a non-string argument changes type on the distributed path (the worker's error is serialised, the sync mode re-raises the original object)")
     n_cls = 0
     args_only: list[str] = []
     for c in [pe] + pe.all_subclasses():
